@@ -488,6 +488,20 @@ def extend(rep: Report, tier: str, prop: str = "C10") -> None:
             items.append(("state", ("havoc", N, pre)))
             items.append(("state", ("history", N, pre)))
             items.append(("state", ("repeat", N, pre)))
+    if prop == "C10":
+        from . import history as HI
+
+        P = HI.OPS.index("parse")
+        nh = 0
+        for H in (1, 2, 3):
+            for t in range(len(HI.TEXTS)):
+                for q in range(len(HI.TEXTS)):
+                    if H < 3 or t in (q, q ^ 1, 2):
+                        items.append(("hist", (H, (P, t), (0, q), H == 3, "C10")))
+                        nh += 1
+        rep.bounds["parse_histories"] = (f"{nh} families: every sequence of <= 2 parse calls (3 when restricted to the queried text, "
+                                         f"its boundary twin and a failing text) over the texts {HI.TEXTS} on one parser, then a "
+                                         "parse asked twice; outcome must equal a fresh parser's")
     rep.bounds["characters"] = f"every string of <= {Lmax} arbitrary code points through the public parse(text)"
     rep.bounds["sticky_state"] = (f"query of <= {Nq} token kinds after (a) a parse of any 2-token input or of the same input on the same parser, "
                                   f"(b) havoc: every per-parse attribute {instance_attrs()} overwritten with arbitrary values "
@@ -503,6 +517,10 @@ def extend(rep: Report, tier: str, prop: str = "C10") -> None:
     random.Random(seed()).shuffle(items)
 
     def dispatch(it: Any) -> Dict[str, Any]:
+        if it[0] == "hist":
+            from . import history as HI
+
+            return HI.worker(it[1])
         return chars_worker(it[1]) if it[0] == "chars" else state_worker(it[1])
 
     for status, item, res in pmap(dispatch, items, budget_s=300 if tier == "quick" else 720, chunk=4):
